@@ -347,6 +347,7 @@ func (n *cnNet) buildGenesis() error {
 				VotingPeriod:                   2,
 				MinProposalDeposit:             q(100),
 				EnableChangeParametersProposal: true,
+				AllowVoteWithoutEntity:         cfg.Seed%2 == 1, // delegators without an entity may vote in every second scenario
 			},
 		},
 		RootHash: roothash.Genesis{
